@@ -162,6 +162,14 @@ impl Check for Handshake {
     fn components(&self) -> serde_json::Value {
         serde_json::json!({"real": ["stellar_access::ownable::* (trait defaults, #[only_owner])", "stellar_access::access_control::{transfer_admin_role, accept_admin_transfer, renounce_admin, #[only_admin]}", "stellar_access::role_transfer::*", "soroban host: temporary storage TTL with min_temp_entry_ttl = 1, auth-tree matching"], "stub": ["Wallet (accept-all signature check)"]})
     }
+    fn property_of(&self, check: &str) -> std::vec::Vec<&'static str> {
+        // the guarded-function clauses are shared with C06 (owner / admin only; nobody after renouncing)
+        if check.starts_with("holder.keeps_control") || check == "fail.no_trace" {
+            vec!["C06", "C07"]
+        } else {
+            vec!["C07"]
+        }
+    }
     fn dup_ok(&self, _s: &Step) -> bool {
         true
     }
@@ -372,7 +380,7 @@ impl Check for Handshake {
                         }
                     }
                     ("guarded", true) => "holder.keeps_control_others_do_not",
-                    ("guarded", false) => "holder.unchanged_until_accept",
+                    ("guarded", false) => "holder.keeps_control_until_accept",
                     (_, true) => "refine.must_fail",
                     (_, false) => "live.valid_call_succeeds",
                 };
@@ -382,7 +390,13 @@ impl Check for Handshake {
                 return Err(violation("fail.no_trace", kind, i, format!("state changed by refused {s:?}")));
             }
             let real: Option<Address> = e.invoke_contract(&id, &Symbol::new(e, f_get), ().into_val(e));
-            let real_idx = real.map(|o| w.idx(&o).expect("holder is an actor"));
+            let real_idx = match real {
+                None => None,
+                Some(o) => match w.idx(&o) {
+                    Some(x) => Some(x),
+                    None => return Err(violation("holder.unchanged_until_accept", kind, i, format!("{f_get} names an address that is no party of this history"))),
+                },
+            };
             if real_idx != m.holder {
                 let check = if kind == "accept" { "accept.only_live_pending" } else { "holder.unchanged_until_accept" };
                 return Err(violation(check, kind, i, format!("{f_get} = {real_idx:?}, model {:?} after {s:?}", m.holder)));
